@@ -333,6 +333,7 @@ func init() {
 		return lower(ex.snapEq(ex.snapshot(a.V, a.T, 0), ex.snapshot(b.V, b.T, 0)))
 	}
 	reg("reflect.DeepEqual", deepEq)
+	reg(rt+"DeepEq", deepEq)
 	reg("github.com/google/go-cmp/cmp.Equal", deepEq)
 	reg("sort.Strings", sortStrings)
 	reg("slices.Sort", func(ex *Exec, fn *ssa.Function, args []Value, site string) Value {
@@ -361,7 +362,7 @@ func init() {
 					break
 				}
 				if s.O != nil && s.O.Frozen {
-					ex.mon.frozenWrite(ex, s.O, site+" (sort swaps elements)")
+					ex.mon.frozenWrite(ex, s.O, site+" (sort swaps elements)", ex.differs(s.Arr[s.Off+j], s.Arr[s.Off+j-1]))
 				}
 				s.Arr[s.Off+j], s.Arr[s.Off+j-1] = s.Arr[s.Off+j-1], s.Arr[s.Off+j]
 			}
@@ -536,7 +537,17 @@ func init() {
 		if a, ok := args[0].(string); ok {
 			return strings.TrimSpace(a)
 		}
-		panic(pathAbort{"unsupported: symbolic TrimSpace"})
+		// s = l ++ r ++ t with l, t ASCII white space only and r neither starting nor ending with white space
+		s := strTerm(args[0])
+		ws := "(re.union (str.to_re \" \") (str.to_re \"\\u{9}\") (str.to_re \"\\u{a}\") (str.to_re \"\\u{b}\") (str.to_re \"\\u{c}\") (str.to_re \"\\u{d}\"))"
+		l := ex.freshVar("trimL", SStr, "string", false)
+		r := ex.freshVar("trimmed", SStr, "string", false)
+		t := ex.freshVar("trimR", SStr, "string", false)
+		ex.assume(mkEq(s, mkConcat(l, r, t)))
+		ex.assume(mkStrOp("str.in_re", SBool, l, mkRaw("(re.* "+ws+")")))
+		ex.assume(mkStrOp("str.in_re", SBool, t, mkRaw("(re.* "+ws+")")))
+		ex.assume(mkNot(mkStrOp("str.in_re", SBool, r, mkRaw("(re.union (re.++ "+ws+" re.all) (re.++ re.all "+ws+"))"))))
+		return r
 	})
 	reg("strings.ToUpper", func(ex *Exec, fn *ssa.Function, args []Value, site string) Value {
 		if a, ok := args[0].(string); ok {
@@ -581,6 +592,43 @@ func init() {
 		}
 		return lower(mkStrOp("str.replace_all", SStr, strTerm(args[0]), strTerm(args[1]), strTerm(args[2])))
 	})
+	reg("strings.Split", func(ex *Exec, fn *ssa.Function, args []Value, site string) Value {
+		a, aok := args[0].(string)
+		b, bok := args[1].(string)
+		mk := func(parts []Value) Value {
+			return Slice{Arr: parts, Len: len(parts), Cap: len(parts), O: ex.newObj(site)}
+		}
+		if aok && bok {
+			var parts []Value
+			for _, p := range strings.Split(a, b) {
+				parts = append(parts, p)
+			}
+			return mk(parts)
+		}
+		if !bok || b == "" {
+			panic(pathAbort{"unsupported: symbolic separator in strings.Split"})
+		}
+		// symbolic string, concrete separator: decide the number of separators (0..2), parts are fresh strings
+		s := strTerm(args[0])
+		n := ex.chooseFree(4)
+		if n == 3 {
+			ex.assume(mkContains(s, mkStr(b+b+b))) // more than two separators: outside the model
+			panic(pathAbort{"unsupported: strings.Split with more than two separators"})
+		}
+		var parts []Value
+		var cat []*Term
+		for i := 0; i <= n; i++ {
+			p := ex.freshVar("split", SStr, "string", false)
+			ex.assume(mkNot(mkContains(p, mkStr(b))))
+			parts = append(parts, p)
+			if i > 0 {
+				cat = append(cat, mkStr(b))
+			}
+			cat = append(cat, p)
+		}
+		ex.assume(mkEq(s, mkConcat(cat...)))
+		return mk(parts)
+	})
 	reg("strings.Repeat", func(ex *Exec, fn *ssa.Function, args []Value, site string) Value {
 		a, aok := args[0].(string)
 		n, nok := args[1].(int64)
@@ -611,7 +659,7 @@ func sortStrings(ex *Exec, fn *ssa.Function, args []Value, site string) Value {
 				break
 			}
 			if s.O != nil && s.O.Frozen {
-				ex.mon.frozenWrite(ex, s.O, site+" (sort swaps elements)")
+				ex.mon.frozenWrite(ex, s.O, site+" (sort swaps elements)", ex.differs(a, b))
 			}
 			s.Arr[s.Off+j], s.Arr[s.Off+j-1] = b, a
 		}
@@ -628,7 +676,7 @@ func sortInts(ex *Exec, fn *ssa.Function, args []Value, site string) Value {
 				break
 			}
 			if s.O != nil && s.O.Frozen {
-				ex.mon.frozenWrite(ex, s.O, site+" (sort swaps elements)")
+				ex.mon.frozenWrite(ex, s.O, site+" (sort swaps elements)", ex.differs(a, b))
 			}
 			s.Arr[s.Off+j], s.Arr[s.Off+j-1] = b, a
 		}
